@@ -632,6 +632,62 @@ def json_reader_vcs() -> List[core.VC]:
     return vcs
 
 
+def dispatcher_vcs() -> List[core.VC]:
+    """`parse_trace_dataframe`: for every value of `cfg.parser_backend` (each member of ParserBackend, or None with every possible
+    default) and both values of `cfg.trace_memory`, the function hands back, unchanged, the triple of exactly one reader call made
+    with (trace_file_path, cfg); the JSON back end is `_parse_trace_dataframe_json` (the reader C01.json_reader puts under
+    contract). The enum is finite: the enumeration of its members is exhaustive, not a bound."""
+    PC = "hta.configs.parser_config"
+    f = extract.get_function(TP, "parse_trace_dataframe")
+    fq = [f.fq]
+    node = extract.stripped(f)
+    name = f"{PROP}.parse_trace_dataframe"
+    members = extract.enum_members(PC, "ParserBackend")
+    cls = pyvc.EnumCls("ParserBackend", members)
+    vcs: List[core.VC] = []
+    n_json = 0
+    for backend in list(members) + [None]:
+        for default in (list(members) if backend is None else [None]):
+            for mem in (False, True):
+                calls: List[Any] = []
+
+                def reader(nm):
+                    @pyvc.intrinsic
+                    def f_(exq, pc, env, args, kwargs, _nm=nm):
+                        calls.append((_nm, list(args), dict(kwargs)))
+                        trip = (pyvc.Opaque("meta"), pyvc.Opaque("df"), pyvc.Opaque("symtab"))  # opaque: any operation on them is outside the contract's reading (undecided)
+                        calls[-1] = calls[-1] + (trip,)
+                        return trip
+
+                    return f_
+
+                ex = pyvc.Exec(consts=extract.module_constants(TP), name=name)
+                ex.consts["ParserBackend"] = cls
+                ex.intrinsics["_parse_trace_dataframe_json"] = reader("json")
+                ex.intrinsics["_parse_trace_dataframe_ijson"] = reader("ijson")
+                ex.intrinsics["get_default_trace_parsing_backend"] = _const_fn(cls.member(default) if default else None)
+                ex.consts["ParserConfig"] = pyvc.Namespace("ParserConfig", {"get_default_cfg": _const_fn(pyvc.Opaque("another configuration"))})
+                ex.consts["tracemalloc"] = pyvc.Namespace("tracemalloc", {"get_traced_memory": _const_fn((0, 0))})
+                cfg = pyvc.Record("ParserConfig", {"parser_backend": cls.member(backend) if backend else None, "trace_memory": mem})
+                outs = ex.run_function(node, {"trace_file_path": "PATH", "cfg": cfg}, [])
+                eff = backend or default
+                tag = f"{backend or 'default'}{'.' + default if default else ''}.{'mem' if mem else 'nomem'}"
+                ok = len(outs) == 1 and outs[0].kind == "ret" and len(calls) == 1 and isinstance(outs[0].value, tuple) and len(outs[0].value) == 3 and all(a is b for a, b in zip(outs[0].value, calls[0][3])) \
+                    and calls[0][1][:1] == ["PATH"] and len(calls[0][1]) == 2
+                if len(calls) == 1 and len(calls[0][1]) == 2 and calls[0][1][1] is not cfg:
+                    # another configuration may give the same rows for the columns the property reads: not judged here
+                    raise pyvc.Unsupported("parse_trace_dataframe: the reader is called with a configuration other than the caller's")
+                if eff == "JSON":
+                    n_json += 1
+                    ok = ok and calls[0][0] == "json" and not calls[0][2]
+                else:
+                    ok = ok and calls[0][0] == "ijson"
+                vcs.append(core.VC(f"{name}.{tag}", [], z3.BoolVal(bool(ok)), "vc", fq, {},
+                                   note=f"backend {eff}: one reader call {[(c[0], c[2]) for c in calls]} with (path, cfg); its triple is returned unchanged; outcomes {[o.kind for o in outs]}"))
+    vcs.append(core.VC(f"{name}.canary", [], z3.BoolVal(n_json == 0), "canary", fq, {}, note="the JSON back end is reached"))
+    return vcs
+
+
 # ---------------------------------------------------------------------------------------------- bounded
 
 
@@ -787,7 +843,8 @@ def units(ctx):
             core.Unit(f"{PROP}.load_traces", load_traces_vcs, [TR + ".Trace.load_traces"]),
             core.Unit(f"{PROP}.scalars", scalar_vcs, [UT + ".normalize_gpu_stream_numbers", TP + "._compress_df"]),
             core.Unit(f"{PROP}.compress_df", compress_df_vcs, [TP + "._compress_df"]),
-            core.Unit(f"{PROP}.json_reader", json_reader_vcs, [TP + "._parse_trace_dataframe_json"])]
+            core.Unit(f"{PROP}.json_reader", json_reader_vcs, [TP + "._parse_trace_dataframe_json"]),
+            core.Unit(f"{PROP}.parse_trace_dataframe", dispatcher_vcs, [TP + ".parse_trace_dataframe"])]
 
 
 def replay(ctx, rec: Dict[str, Any]) -> Dict[str, Any]:
@@ -862,7 +919,7 @@ def replay(ctx, rec: Dict[str, Any]) -> Dict[str, Any]:
 
 SPEC = Spec(
     prop=PROP, level="other", replay=replay,
-    functions=[(TP, "round_down_time_stamps"), (TR, "parse_trace_file"), (TR, "Trace._align_all_ranks"), (TR, "Trace.load_traces"), (TP, "_compress_df"), (TP, "_parse_trace_dataframe_json"),
+    functions=[(TP, "round_down_time_stamps"), (TR, "parse_trace_file"), (TR, "Trace._align_all_ranks"), (TR, "Trace.load_traces"), (TP, "_compress_df"), (TP, "_parse_trace_dataframe_json"), (TP, "parse_trace_dataframe"),
                (UT, "normalize_gpu_stream_numbers"), (UT, "normalize_gpu_stream_numbers._normalize_stream_number"), (TR, "add_fwd_bwd_links"), (TR, "add_iteration")],
     units=units, bounded=[Bounded("load_vs_json", bounded)],
     trusted=["pandas contracts (column arithmetic, apply, Series.min, set_index, label alignment) listed under assumptions", "math.ceil / math.floor on reals",
